@@ -60,6 +60,11 @@ def run(check: Check, repo: Repo, tier: str) -> None:
     check.floor("ATTR-MEMO", 1, "object-attribute memos")
     X.collect_guard(check, repo)
     X.source_siblings(check, repo)
+    X.leaf_always_coerced(check, repo)
+    from rules import coercion_rules as K
+
+    K.sibling_atoms(check, repo)
+    G.param_readonly(check, list(repo.mod("error.located_error").functions()))
     S.nonnull_invariant(check, repo.package_modules("execution"))
     X.scope_threading(check, repo, [repo.mod(x) for x in ("execution.executor", "execution.execute", "execution.values", "execution.collect_fields",
                                                            "utilities.coerce_input_value", "utilities.replace_variables", "utilities.validate_input_value")])
